@@ -346,6 +346,7 @@ def faultItems (kind : String) (k : Nat) : List Acc.Item × Bool :=   -- (what t
   | "stall_handshake" => ([], false)
   | "half_hello" => ([], false)
   | "malformed" => ([.req (900000 + k), .bad], true)
+  | "deepnest" => ([.bad], true)
   | "oversized" => ([.bad], true)
   | "short" => ([.bad], true)
   | "stall_midframe" => ([], true)
